@@ -481,6 +481,33 @@ GUARD_TEXTS = ["# @generated <<SignedSource::*O*zOeWoEQle#+L!plEphiEmie@IsG>>\nl
                "a\r\n@generated <<SignedSource::*O*zOeWoEQle#+L!plEphiEmie@IsG>>\r\nB\t"]
 
 
+_FULL = "@generated <<SignedSource::*O*zOeWoEQle#+L!plEphiEmie@IsG>>"
+_BARE = "<<SignedSource::*O*zOeWoEQle#+L!plEphiEmie@IsG>>"
+# contents that contain the signing token (and possibly further, bare or full, occurrences of the token text): signing must verify
+SIGN_TEXTS = GUARD_TEXTS + [
+    "// " + _FULL + "\nconst t = '" + _BARE + "';\n",
+    "'" + _BARE + "' /* " + _FULL + " */",
+    _FULL + "\n" + _FULL + "\n",
+    "x " + _FULL + " y " + _BARE + " z " + _FULL,
+    _FULL,
+    "\u00e9 " + _FULL + " \u4e2d\n",
+    _BARE + _FULL + _BARE,
+]
+
+
+def native_sign_guard(binary, violations):
+    """every content containing the signing token signs to a file that verifies (real crate, no translator involved)"""
+    outs = run_native(binary, [t.encode().hex() for t in SIGN_TEXTS])
+    for t, o in zip(SIGN_TEXTS, outs):
+        f = o.split()
+        if f[0] == "-" or f[1] != "true":
+            rp = os.path.join(REPLAYS, PROP, "guard_sign")
+            write_replay(rp, t.encode(), "the signed form of a content containing the signing token does not verify (native sign guard)", binary, mode="sign")
+            violations.append(("signing %r yields a file that does not verify (native sign guard)" % t, rp))
+            break
+    return len(SIGN_TEXTS)
+
+
 def native_edit_guard(binary, violations):
     lines = [t.encode().hex() for t in GUARD_TEXTS]
     outs = run_native(binary, lines)
@@ -539,6 +566,8 @@ def main():
         # ---- stage 0 (not solver-decided; a guard that does not depend on the translator): sign a few texts with the real
         # crate and apply single-character edits at every position outside the signature with a few replacement characters;
         # every edited file must be rejected. A reproduced acceptance is a violation whatever the source now looks like.
+        n_sign_guard = native_sign_guard(binary, violations)
+        samples.append({"native_sign_guard_texts": n_sign_guard})
         n_guard = native_edit_guard(binary, violations)
         samples.append({"native_edit_guard_edits": n_guard})
         X = extract()
